@@ -121,6 +121,9 @@ def report(ctx, mod, searched):
         path = vlib.write_replay(ctx, 0, what)
         lines.append(f"VIOLATION property={ctx.prop} replay={path} no-failing-input-found")
         rc = 1
+    if not ctx.assumptions:
+        ctx.assumptions = list(getattr(mod, "TRUSTED", [])) + [
+            "the Lean model is tied to /repo only through the correspondence of this run (inputs listed under input_distribution)"]
     level = getattr(mod, "LEVEL", "proof")
     vlib.write_evidence(ctx, level=level, checker_cmd=f"cd lean && lake build {' '.join(mod.TARGETS)} && "
                         f"#print axioms audit of {mod.PROPS_FILE}" + (" && lake env leanchecker" if ctx.tier == "thorough" else ""),
